@@ -70,6 +70,17 @@ theorem rd32_be32 (n : Nat) (h : n < 4294967296) :
   simp only [rd32, BitVec.toNat_ofNat]
   omega
 
+theorem be32_rd32 (a b c d : Byte) : be32 (rd32 a b c d) = [a, b, c, d] := by
+  have ha := a.isLt; have hb := b.isLt; have hc := c.isLt; have hd := d.isLt
+  simp only [be32, rd32, List.cons.injEq, and_true]
+  refine ⟨?_, ?_, ?_, ?_⟩ <;> (apply BitVec.eq_of_toNat_eq; simp only [BitVec.toNat_ofNat]; omega)
+
+/- `rd32` is opaque to the unifier from here on: unfolding it on symbolic bytes leads
+   `whnf` into `Nat.mod`/`Nat.ble` on open terms, which does not terminate in practice
+   (it made `simp`/`dsimp` hang on goals containing a decoder applied to an encoder).
+   The compiled driver is unaffected; proofs use `rd32_be32` and `rd32_lt`. -/
+attribute [irreducible] rd32
+
 /-! ### hex I/O for the line-protocol driver (not used in proofs) -/
 
 def hexDigit (n : Nat) : Char :=
